@@ -79,7 +79,7 @@ func runProgram(src string) (res runResult) {
 	case nil:
 		res.Outcome = "ok"
 	case *scriggo.PanicError:
-		res.Outcome, res.Msg = "panic", e.Error()
+		res.Outcome, res.Msg = "panic", e.String()
 	case *scriggo.ExitError:
 		res.Outcome, res.Msg = "exit", e.Error()
 	default:
@@ -532,6 +532,267 @@ func convRun(cs []convCase, retry bool) []any {
 	return out
 }
 
+// ---------------------------------------------------------------- minigo
+
+type node = map[string]any
+
+func nodesOf(v any) []node {
+	a, _ := v.([]any)
+	out := make([]node, len(a))
+	for i, x := range a {
+		out[i], _ = x.(map[string]any)
+	}
+	return out
+}
+
+func asNode(v any) node { n, _ := v.(map[string]any); return n }
+func asInt(v any) int   { f, _ := v.(float64); return int(f) }
+func asStr(v any) string {
+	s, _ := v.(string)
+	return s
+}
+
+var fieldName = map[int]string{1: "a", 2: "b"}
+
+// mgExpr writes an expression of the mini language as Go source.
+func mgExpr(e node) string {
+	switch asStr(e["e"]) {
+	case "c":
+		if n := asInt(e["n"]); n < 0 {
+			return fmt.Sprintf("(%d)", n)
+		}
+		return fmt.Sprint(asInt(e["n"]))
+	case "str":
+		var a []int
+		for _, x := range e["b"].([]any) {
+			a = append(a, asInt(x))
+		}
+		return strLit(a)
+	case "v":
+		return fmt.Sprintf("v%d", asInt(e["v"]))
+	case "bin", "cmp":
+		return "(" + mgExpr(asNode(e["a"])) + " " + asStr(e["op"]) + " " + mgExpr(asNode(e["b"])) + ")"
+	case "and":
+		return "(" + mgExpr(asNode(e["a"])) + " && " + mgExpr(asNode(e["b"])) + ")"
+	case "or":
+		return "(" + mgExpr(asNode(e["a"])) + " || " + mgExpr(asNode(e["b"])) + ")"
+	case "not":
+		return "(!" + mgExpr(asNode(e["a"])) + ")"
+	case "idx":
+		return mgExpr(asNode(e["a"])) + "[" + mgExpr(asNode(e["i"])) + "]"
+	case "mapget":
+		return mgExpr(asNode(e["a"])) + "[" + mgExpr(asNode(e["k"])) + "]"
+	case "len":
+		return "len(" + mgExpr(asNode(e["a"])) + ")"
+	case "cap":
+		return "cap(" + mgExpr(asNode(e["a"])) + ")"
+	case "slice":
+		return mgExpr(asNode(e["a"])) + "[" + mgExpr(asNode(e["lo"])) + ":" + mgExpr(asNode(e["hi"])) + "]"
+	case "field":
+		return mgExpr(asNode(e["a"])) + "." + fieldName[asInt(e["f"])]
+	case "addr":
+		return fmt.Sprintf("&v%d", asInt(e["v"]))
+	case "nilptr":
+		return "(*S)(nil)"
+	case "nilmap":
+		return "map[int]int(nil)"
+	case "nilslice":
+		if asStr(e["ty"]) == "func" {
+			return "[]func() int(nil)"
+		}
+		return "[]int(nil)"
+	case "mkmap":
+		return "map[int]int{}"
+	case "mkslice":
+		return fmt.Sprintf("make([]int, %d, %d)", asInt(e["len"]), asInt(e["cap"]))
+	case "mkfuncs":
+		return fmt.Sprintf("make([]func() int, %d)", asInt(e["len"]))
+	case "lit", "slicelit":
+		es := nodesOf(e["es"])
+		parts := make([]string, len(es))
+		for i, x := range es {
+			parts[i] = mgExpr(x)
+		}
+		switch {
+		case asStr(e["e"]) == "slicelit":
+			return "[]int{" + strings.Join(parts, ", ") + "}"
+		case asStr(e["of"]) == "st":
+			return "S{" + strings.Join(parts, ", ") + "}"
+		}
+		return fmt.Sprintf("[%d]int{%s}", len(es), strings.Join(parts, ", "))
+	case "append":
+		return "append(" + mgExpr(asNode(e["a"])) + ", " + mgExpr(asNode(e["x"])) + ")"
+	case "clo":
+		return "func() int {\n" + mgBlock(nodesOf(e["body"]), "\t\t\t") + "\t\t}"
+	case "call":
+		return mgExpr(asNode(e["f"])) + "()"
+	case "box":
+		return "any(" + mgExpr(asNode(e["a"])) + ")"
+	case "assert":
+		return mgExpr(asNode(e["a"])) + ".(" + asStr(e["ty"]) + ")"
+	}
+	return "/*?" + asStr(e["e"]) + "*/"
+}
+
+func mgSimple(s node) string {
+	switch asStr(s["s"]) {
+	case "set":
+		lv := asNode(s["lv"])
+		var l string
+		switch asStr(lv["l"]) {
+		case "v":
+			l = fmt.Sprintf("v%d", asInt(lv["v"]))
+		case "idx":
+			l = fmt.Sprintf("v%d[%s]", asInt(lv["v"]), mgExpr(asNode(lv["i"])))
+		case "map":
+			l = fmt.Sprintf("v%d[%s]", asInt(lv["v"]), mgExpr(asNode(lv["k"])))
+		case "field":
+			l = fmt.Sprintf("v%d.%s", asInt(lv["v"]), fieldName[asInt(lv["f"])])
+		}
+		return l + " = " + mgExpr(asNode(s["e"]))
+	case "nop":
+		return ""
+	}
+	return "/*?*/"
+}
+
+func lbl(s node, key string) string {
+	if l := asStr(s[key]); l != "" {
+		return " " + l
+	}
+	return ""
+}
+
+func mgBlock(b []node, ind string) string {
+	var o strings.Builder
+	for _, s := range b {
+		switch asStr(s["s"]) {
+		case "nop":
+		case "label":
+			fmt.Fprintf(&o, "%s:\n", asStr(s["name"]))
+		case "decl":
+			fmt.Fprintf(&o, "%sv%d := %s\n%s_ = v%d\n", ind, asInt(s["v"]), mgExpr(asNode(s["e"])), ind, asInt(s["v"]))
+		case "set":
+			fmt.Fprintf(&o, "%s%s\n", ind, mgSimple(s))
+		case "print":
+			es := nodesOf(s["es"])
+			parts := make([]string, len(es))
+			for i, x := range es {
+				parts[i] = mgExpr(asNode(x["e"]))
+			}
+			fmt.Fprintf(&o, "%sprintln(%s)\n", ind, strings.Join(parts, ", "))
+		case "if":
+			fmt.Fprintf(&o, "%sif %s {\n%s%s}", ind, mgExpr(asNode(s["c"])), mgBlock(nodesOf(s["a"]), ind+"\t"), ind)
+			if eb := nodesOf(s["b"]); len(eb) > 0 {
+				fmt.Fprintf(&o, " else {\n%s%s}", mgBlock(eb, ind+"\t"), ind)
+			}
+			o.WriteString("\n")
+		case "for":
+			if l := asStr(s["label"]); l != "" {
+				fmt.Fprintf(&o, "%s:\n", l)
+			}
+			init := ""
+			if v := asInt(s["v"]); v != 0 {
+				init = fmt.Sprintf("v%d := %s", v, mgExpr(asNode(s["init"])))
+			}
+			fmt.Fprintf(&o, "%sfor %s; %s; %s {\n%s%s}\n", ind, init, mgExpr(asNode(s["cond"])), mgSimple(asNode(s["post"])), mgBlock(nodesOf(s["body"]), ind+"\t"), ind)
+		case "ranges":
+			if l := asStr(s["label"]); l != "" {
+				fmt.Fprintf(&o, "%s:\n", l)
+			}
+			iv, rv := "_", "_"
+			use := ""
+			if v := asInt(s["iv"]); v != 0 {
+				iv = fmt.Sprintf("v%d", v)
+				use += fmt.Sprintf("%s\t_ = v%d\n", ind, v)
+			}
+			if v := asInt(s["rv"]); v != 0 {
+				rv = fmt.Sprintf("v%d", v)
+				use += fmt.Sprintf("%s\t_ = v%d\n", ind, v)
+			}
+			head := fmt.Sprintf("for %s, %s := range %s", iv, rv, mgExpr(asNode(s["e"])))
+			if iv == "_" && rv == "_" {
+				head = "for range " + mgExpr(asNode(s["e"]))
+			}
+			fmt.Fprintf(&o, "%s%s {\n%s%s%s}\n", ind, head, use, mgBlock(nodesOf(s["body"]), ind+"\t"), ind)
+		case "switch":
+			fmt.Fprintf(&o, "%sswitch %s {\n", ind, mgExpr(asNode(s["e"])))
+			for _, c := range nodesOf(s["clauses"]) {
+				if d, _ := c["def"].(bool); d {
+					fmt.Fprintf(&o, "%sdefault:\n", ind)
+				} else {
+					var vals []string
+					for _, x := range c["vals"].([]any) {
+						vals = append(vals, fmt.Sprint(asInt(x)))
+					}
+					fmt.Fprintf(&o, "%scase %s:\n", ind, strings.Join(vals, ", "))
+				}
+				o.WriteString(mgBlock(nodesOf(c["body"]), ind+"\t"))
+				if ft, _ := c["ft"].(bool); ft {
+					fmt.Fprintf(&o, "%s\tfallthrough\n", ind)
+				}
+			}
+			fmt.Fprintf(&o, "%s}\n", ind)
+		case "break", "continue", "goto":
+			fmt.Fprintf(&o, "%s%s%s\n", ind, asStr(s["s"]), lbl(s, "label"))
+		case "del":
+			fmt.Fprintf(&o, "%sdelete(v%d, %s)\n", ind, asInt(s["v"]), mgExpr(asNode(s["k"])))
+		case "expr":
+			fmt.Fprintf(&o, "%s_ = %s\n", ind, mgExpr(asNode(s["e"])))
+		case "ret":
+			fmt.Fprintf(&o, "%sreturn %s\n", ind, mgExpr(asNode(s["e"])))
+		default:
+			fmt.Fprintf(&o, "%s/*?%s*/\n", ind, asStr(s["s"]))
+		}
+	}
+	return o.String()
+}
+
+type mgCase struct {
+	ID    int            `json:"id"`
+	Fam   string         `json:"fam"`
+	Shape string         `json:"shape"`
+	Prog  map[string]any `json:"prog"`
+	Exp   map[string]any `json:"exp"`
+}
+
+func mgRun(c mgCase) []any {
+	src := "package main\n\ntype S struct{ a, b int }\n\nfunc main() {\n" + mgBlock(nodesOf(c.Prog["body"]), "\t") + "}\n"
+	res := runProgram(src)
+	lines := [][]any{}
+	for _, l := range res.Lines {
+		toks := []any{}
+		for _, v := range l {
+			switch x := v.(type) {
+			case string:
+				toks = append(toks, map[string]any{"k": "s", "n": 0, "s": drv.IntsS(x)})
+			case bool:
+				n := 0
+				if x {
+					n = 1
+				}
+				toks = append(toks, map[string]any{"k": "b", "n": n, "s": []int{}})
+			case int:
+				toks = append(toks, map[string]any{"k": "i", "n": x, "s": []int{}})
+			case uint8:
+				toks = append(toks, map[string]any{"k": "i", "n": int(x), "s": []int{}})
+			case int32:
+				toks = append(toks, map[string]any{"k": "i", "n": int(x), "s": []int{}})
+			default:
+				toks = append(toks, map[string]any{"k": fmt.Sprintf("%T", v), "n": 0, "s": drv.IntsS(fmt.Sprint(v))})
+			}
+		}
+		lines = append(lines, toks)
+	}
+	o := map[string]any{"id": c.ID, "fam": "minigo", "shape": c.Shape, "prog": c.Prog, "exp": c.Exp,
+		"out": lines, "outcome": res.Outcome, "msg": drv.IntsS(res.Msg)}
+	if *flagKeepSrc {
+		o["src"] = src
+		o["raw"] = rawText(res)
+	}
+	return []any{o}
+}
+
 // ---------------------------------------------------------------- main loop
 
 type job func() []any
@@ -565,6 +826,12 @@ func main() {
 					return err
 				}
 				conv = append(conv, c)
+			case "minigo":
+				var c mgCase
+				if err := json.Unmarshal(raw, &c); err != nil {
+					return err
+				}
+				jobs = append(jobs, func() []any { return mgRun(c) })
 			case "initorder":
 				var c initCase
 				if err := json.Unmarshal(raw, &c); err != nil {
